@@ -483,6 +483,9 @@ func (f *Frame) applyContract(con *Contract, callee *ssa.Function, sig *types.Si
 	for _, c := range con.Ensures {
 		t := f.evalClause(post, c, con)
 		vc.assumeUnder(st.pc, t)
+		if c.Assumed && !con.Trusted {
+			vc.assumed = append(vc.assumed, fmt.Sprintf("clause of %s assumed at its call sites, not proved against its body (ghost link): %s", con.Name, c.Src))
+		}
 	}
 	f.applyLogs(con, post, st)
 	return res
